@@ -20,6 +20,7 @@ CONSTANTS
   HalfBroken = %(half)s
   HandlerCloses = %(hcl)s
   MaxConflicts = %(conflicts)d
+  RetryStopsOnClosedErr = %(rsc)s
   ConflictFatal = %(cfatal)s
   CloseJoinsMain = %(cjm)s
 %(view)s
@@ -27,7 +28,7 @@ INVARIANTS %(invs)s
 %(constraint)s
 CHECK_DEADLOCK FALSE
 """
-INVS = "TokenPerDial NoStreamDetached CallersSurvive NotificationsOnce NoPanic NoDialAfterClose NoCallerParkedWhenClosed NoSupervisorParkedWhenClosed SilentAfterDisconnect NoSelfJoin ConflictNeverFatal"
+INVS = "TokenPerDial NoStreamDetached CallersSurvive NotificationsOnce NoPanic NoDialAfterClose NoCallerParkedWhenClosed NoSupervisorParkedWhenClosed SilentAfterDisconnect NoSelfJoin ConflictNeverFatal SupervisorAlive"
 NG = 17  # StreamNotFound
 
 
@@ -40,11 +41,11 @@ def q(xs):
 
 
 def write_cfg(name, streams=("S1", "S2"), callers=("P1",), faults=1, dialfails=1, resumeng=1, fixed=True, close=True, view=True,
-              invs=INVS, gen=False, epoch_before_resume=True, half=False, handler_closes=False, close_joins_main=False, conflicts=0, conflict_fatal=False):
+              invs=INVS, gen=False, epoch_before_resume=True, half=False, handler_closes=False, close_joins_main=False, conflicts=0, conflict_fatal=False, retry_stops_on_closed_err=False):
     with open(os.path.join(SPEC, name), "w") as f:
         f.write(CFG % dict(streams=q(streams), callers=q(callers), faults=faults, dialfails=dialfails, resumeng=resumeng,
                            epoch=b(fixed), hook=b(fixed), guard=b(fixed), close=b(close), view="VIEW View" if view else "",
-                           invs=invs, constraint="CONSTRAINT GenPrint" if gen else "", ebr=b(epoch_before_resume), half=b(half), hcl=b(handler_closes), cjm=b(close_joins_main), conflicts=conflicts, cfatal=b(conflict_fatal)))
+                           invs=invs, constraint="CONSTRAINT GenPrint" if gen else "", ebr=b(epoch_before_resume), half=b(half), hcl=b(handler_closes), cjm=b(close_joins_main), conflicts=conflicts, cfatal=b(conflict_fatal), rsc=b(retry_stops_on_closed_err)))
     return name
 
 
@@ -217,6 +218,24 @@ def handshake_refused(tag):
                                          {"a": "cut"}, {"a": "await", "ev": "Reconnected", "n": 1, "ms": 5000}, {"a": "sleep", "ms": 250}]
             steps += probes(ss) + teardown(ss)
             scs.append({"id": "%s/handshakeRefused/%d/d%d" % (tag, n, delay), "kind": "iscp", "conn": conn, "steps": steps})
+    return scs
+
+
+def handshake_cut(tag):
+    """the transport of a redial attempt comes up but is lost during the connect handshake (the broker cuts it when it receives the
+    connect request / the client-side write of the connect request fails): the attempt counts as failed, the client dials again (with a
+    fresh token) and recovers."""
+    scs = []
+    for do in ("cutOnRecv", "cutBefore", "cutAfter"):
+        for n in (1, 2):
+            for delay in (0, 40):
+                conn = {"pingMs": [100, 100], "dialDelayMs": delay}
+                ss = ("S1", "S2")
+                steps = prelude(ss, conn) + [{"a": "rule", "rule": {"on": "ConnectRequest", "inc": 2 + k, "do": do}} for k in range(n)]
+                steps += [{"a": "cut"}, {"a": "sendMeta", "g": "P1", "tag": 8, "ctxMs": 4000},
+                          {"a": "await", "ev": "Reconnected", "n": 1, "ms": 5000}, {"a": "join", "obj": "P1"}, {"a": "sleep", "ms": 250}]
+                steps += probes(ss) + teardown(ss)
+                scs.append({"id": "%s/handshakeCut/%s/%d/d%d" % (tag, do, n, delay), "kind": "iscp", "conn": conn, "steps": steps})
     return scs
 
 
